@@ -21,7 +21,8 @@ type SNPEnt struct {
 }
 
 type LSDBStep struct {
-	K     string   `json:"k"`              // lsp | csnp | psnp | tick | send-lsp | send-psnp | send-csnp
+	K     string   `json:"k"`              // lsp | csnp | psnp | tick | regen | send-lsp | send-psnp | send-csnp
+	Defer bool     `json:"defer,omitempty"` // lsp with the local LSP ID: the regeneration it triggers runs later (slow updater goroutine)
 	From  int      `json:"from,omitempty"` // 0 = eth0 (neighbor A), 1 = eth1 (neighbor B)
 	ID    int      `json:"id,omitempty"`   // lsp: index into the pool (0 = own LSP)
 	Seq   uint32   `json:"seq,omitempty"`
@@ -80,7 +81,15 @@ func GenLSDBCase(rng *rand.Rand, steps int) LSDBCase {
 			if rng.IntN(100) < 15 {
 				id = 0
 			}
-			c.Steps = append(c.Steps, LSDBStep{K: "lsp", From: rng.IntN(2), ID: id, Seq: seq(), Life: life()})
+			st := LSDBStep{K: "lsp", From: rng.IntN(2), ID: id, Seq: seq(), Life: life()}
+			if id == 0 {
+				// copies of the local LSP: wider sequence range, often several before the updater runs
+				if rng.IntN(20) != 0 {
+					st.Seq = uint32(1 + rng.IntN(12))
+				}
+				st.Defer = rng.IntN(2) == 0
+			}
+			c.Steps = append(c.Steps, st)
 		case x < 47:
 			s := LSDBStep{K: "csnp", From: rng.IntN(2), Start: -1, End: -1}
 			for id := 0; id < np; id++ {
@@ -120,7 +129,9 @@ func GenLSDBCase(rng *rand.Rand, steps int) LSDBCase {
 				n = 1500
 			}
 			c.Steps = append(c.Steps, LSDBStep{K: "tick", N: n})
-		case x < 83:
+		case x < 77:
+			c.Steps = append(c.Steps, LSDBStep{K: "regen"})
+		case x < 84:
 			c.Steps = append(c.Steps, LSDBStep{K: "send-lsp"})
 		case x < 92:
 			c.Steps = append(c.Steps, LSDBStep{K: "send-psnp"})
@@ -265,6 +276,25 @@ func RunLSDB(c LSDBCase, out *Outcome, emit func(Sent)) {
 	}
 	regen("setup")
 	h.Take()
+	// newer copies of the local LSP whose regeneration was deferred
+	var deferredNewer uint32
+	settleOwn := func(when string) {
+		regen(when)
+		if panicked || deferredNewer == 0 {
+			return
+		}
+		o, ok := h.LSDB()[own]
+		if !ok || o.Seq <= deferredNewer {
+			out.Violate("own-seq", map[string]string{"when": "after-reception"},
+				"step %d: copies of the local LSP up to sequence number %d were received; after the updater ran every regeneration the server requested (%s) the LSDB holds the local LSP with sequence number %d (present %v), want > %d", stepNo, deferredNewer, when, o.Seq, ok, deferredNewer)
+		}
+		deferredNewer = 0
+	}
+	defer func() {
+		if !panicked {
+			settleOwn("end of history")
+		}
+	}()
 	out.Count("histories", 1)
 
 	model := map[LSPID]*lsdbModelEntry{}
@@ -457,7 +487,15 @@ func RunLSDB(c LSDBCase, out *Outcome, emit func(Sent)) {
 					maxOwnRx = s.Seq
 				}
 				newer := !had || s.Seq > p.Seq
-				regen("own-copy-received")
+				if s.Defer {
+					// the updater goroutine has not run yet when the next PDU arrives
+					out.Count("own_copies_deferred", 1)
+					if newer && s.Seq > deferredNewer {
+						deferredNewer = s.Seq
+					}
+					break
+				}
+				settleOwn("own-copy-received")
 				if panicked {
 					return
 				}
@@ -584,6 +622,11 @@ func RunLSDB(c LSDBCase, out *Outcome, emit func(Sent)) {
 				}
 			}
 			checkModel(s.K)
+		case "regen":
+			settleOwn("updater ran")
+			if panicked {
+				return
+			}
 		case "tick":
 			for t := 0; t < s.N && !panicked; t++ {
 				if !guard("age-tick", func() { server.VerifLSDBAgeTick(h.S) }) {
@@ -596,7 +639,7 @@ func RunLSDB(c LSDBCase, out *Outcome, emit func(Sent)) {
 						m.life--
 					}
 				}
-				regen("refresh")
+				settleOwn("refresh")
 				if panicked {
 					return
 				}
